@@ -22,6 +22,7 @@ CLAUSES = {
     "g": "max_start_depth only reports unrestricted matches rooted at depth <= d",
     "h": "QueryCaptures with predicates agrees with QueryMatches with predicates",
     "p": "a byte range and the point range of the same positions select the same matches and captures",
+    "r": "ts_query_is_pattern_rooted says rooted exactly for patterns with one top-level node (alternations included)",
     "u": "finished-state heap keeps the heap property (unit level)",
 }
 
